@@ -23,6 +23,8 @@ from liquid.token import TOKEN_LBRACKET
 from liquid.token import TOKEN_RBRACKET
 from liquid.token import TOKEN_WORD
 
+from ._tokenize import _keywords
+
 if TYPE_CHECKING:
     from liquid import Environment
     from liquid import RenderContext
@@ -35,6 +37,12 @@ Location = tuple[Union[str, int, "Location"], ...]
 
 # This is use for pretty printing paths with shorthand notation where possible.
 RE_PROPERTY = re.compile(r"[\u0080-\uFFFFa-zA-Z_][\u0080-\uFFFFa-zA-Z0-9_-]*")
+
+
+def _is_shorthand(segment: str) -> bool:
+    """Return `True` if _segment_ can be written in dot (or bare root) notation."""
+    # A segment that is spelled like a keyword would be read as that keyword.
+    return bool(RE_PROPERTY.fullmatch(segment)) and segment not in _keywords
 
 
 def _quote(segment: str) -> str:
@@ -59,7 +67,7 @@ class Path(Expression):
 
         if isinstance(root, Path):
             buf = [f"[{root}]"]
-        elif isinstance(root, str) and not RE_PROPERTY.fullmatch(root):
+        elif isinstance(root, str) and not _is_shorthand(root):
             buf = [f"[{_quote(root)}]"]
         else:
             buf = [str(root)]
@@ -68,7 +76,7 @@ class Path(Expression):
             if isinstance(segment, Path):
                 buf.append(f"[{segment}]")
             elif isinstance(segment, str):
-                if RE_PROPERTY.fullmatch(segment):
+                if _is_shorthand(segment):
                     buf.append(f".{segment}")
                 else:
                     buf.append(f"[{_quote(segment)}]")
